@@ -172,10 +172,16 @@ def mergeTrees (mf : List ν → Option ν) (z : ν) :
     | [] => none
     | [x] => some x
     | _ =>
+      let rows := unionAll (xs.map (fun x => present x.2 r x.1))
+      -- a coordinate that none of the first two operands presents gets its entries for them from
+      -- the default of the *lazy* nested union `(a | b)`; below fibers of fibers these end up as
+      -- `None` leaves and `merge_fn` raises `TypeError`
+      if r ≥ 1 && rows.any (fun row => (row.2.take 2).all (fun o => o.isNone)) then none
+      else
       (mapM? (fun row => (mergeTrees mf z r
                   ((row.2.zip (xs.map (fun x => x.2))).map
                     (fun od => (od.1.getD (defaultTree od.2 r), od.2)))).map (fun t => (row.1, t.1)))
-        (unionAll (xs.map (fun x => present x.2 r x.1)))).map
+        rows).map
         (fun l => ((show List (κ × Tree κ ν r) from l), z))
 
 /-- a payload together with the default of its leaf fibers -/
